@@ -307,6 +307,11 @@ func RunParserHist(h *Hist, orc *Oracle) {
 	in := h.Input
 	fed := len(h.Preload) // Preload is a prefix of Input that the parser already holds
 	B := h.BC.BufferSize
+	// the block is reused by all Parse calls of one execution (so that stale
+	// block contents are observable) but must not carry anything over from the
+	// previous execution, or replay would not be deterministic
+	h.Blk.Sequences = h.Blk.Sequences[:0]
+	h.Blk.Literals = h.Blk.Literals[:0]
 	blk := &h.Blk
 	depth := int64(0)
 
